@@ -5,6 +5,7 @@ from ..r_valence import (rule_tables_compile, rule_definite_assignment, rule_sib
 from ..r_domains import rule_domains
 from ..r_construct import rule_changed_set
 from ..r_protocol import run_protocol
+from ..r_hygiene import rule_hygiene as _rule_hygiene
 
 LEVEL = 'other'
 
@@ -20,3 +21,4 @@ def run(ck, repo):
     # every atom whose environment an edit changed is recalculated: pending-set bookkeeping + the HYDRO dimension of the mutator protocol
     rule_changed_set(ck, repo)
     run_protocol(ck, repo, 'C04.D5-recalculation', only_dims={'HYDRO'})
+    _rule_hygiene(ck, repo, 'C04.H-dataflow-hygiene', 'C04')
